@@ -17,7 +17,7 @@
 (* outcome = <<"ok">> | <<"none">> | <<"falsy">> | <<"label", l>>          *)
 (*         | <<"raise", cls>>                                               *)
 (*                                                                         *)
-(* Terms: <<"v", n, kw>>, <<"dflt", n, kw>>, <<"data", dest, k>>,          *)
+(* Terms: <<"v", n, kw>>, <<"dflt", n, kw>>, <<"data", dest, k, kw of dest>>,*)
 (*        <<"s", text>>, <<"none">>, <<"falsy">>; kw = Seq(<<name, term>>)  *)
 (* Results: <<"V", term>> | <<"F", set of error tokens>> | <<"R", data>>   *)
 (***************************************************************************)
@@ -29,7 +29,7 @@ Max2(a, b) == IF a >= b THEN a ELSE b
 
 RECURSIVE MaxData(_, _), MaxDataKw(_, _)
 MaxData(t, d) ==
-    IF t[1] = "data" THEN (IF t[2] = d THEN t[3] ELSE 0)
+    IF t[1] = "data" THEN (IF t[2] = d THEN Max2(t[3], MaxDataKw(t[4], d)) ELSE 0)   \* another destination's payload is opaque
     ELSE IF t[1] \in {"v", "dflt"} THEN MaxDataKw(t[3], d)
     ELSE IF t[1] = "recmark" THEN MaxData(t[2], d)
     ELSE 0
@@ -37,13 +37,23 @@ MaxDataKw(kw, d) ==
     IF Len(kw) = 0 THEN 0 ELSE Max2(MaxData(kw[1][2], d), MaxDataKw(Tail(kw), d))
 
 (* the outcome of the k-th attempt (1-based) of node n called with kw *)
+RECURSIVE MaxAny(_), MaxAnyKw(_)
+MaxAny(t) ==
+    IF t[1] = "data" THEN Max2(t[3], MaxAnyKw(t[4]))
+    ELSE IF t[1] \in {"v", "dflt"} THEN MaxAnyKw(t[3])
+    ELSE IF t[1] = "recmark" THEN MaxAny(t[2])
+    ELSE 0
+MaxAnyKw(kw) == IF Len(kw) = 0 THEN 0 ELSE Max2(MaxAny(kw[1][2]), MaxAnyKw(Tail(kw)))
+
 Outcome(R, n, kw, k) ==
-    LET pl  == R.plan[n]
+    LET byit == R.plan_it[n]
+        ep  == MaxAnyKw(kw)
+        pl  == IF Len(byit) = 0 THEN R.plan[n] ELSE byit[IF ep + 1 > Len(byit) THEN Len(byit) ELSE ep + 1]
         o   == pl[IF k > Len(pl) THEN Len(pl) ELSE k]
         req == R.recreq[n]
         it  == MaxDataKw(kw, n)
     IN  IF req >= 0 /\ o[1] = "ok" /\ it < req
-        THEN <<"rec", IF R.recfalsy[n] THEN <<"falsy">> ELSE <<"data", n, it + 1>> >>
+        THEN <<"rec", IF R.recfalsy[n] THEN <<"falsy">> ELSE <<"data", n, it + 1, kw>> >>
         ELSE o
 
 IsExc(cls) == cls \in {"E1", "E2", "E3"}
